@@ -449,8 +449,32 @@ pub fn comparator_axioms(ctx: &Ctx, tier: Tier) -> u64 {
             }
         }
     }
+    // (5) key-less repeatable siblings that differ only in a float value deep inside (SW-CALPRM-AXIS / SW-AXIS-GROUPED / MAX-GRADIENT)
+    let mut floats: Vec<(String, Element)> = vec![];
+    {
+        let set = host
+            .create_named_sub_element(ElementName::ApplicationPrimitiveDataType, "t")
+            .and_then(|e| e.create_sub_element(ElementName::SwDataDefProps))
+            .and_then(|e| e.create_sub_element(ElementName::SwDataDefPropsVariants))
+            .and_then(|e| e.create_sub_element(ElementName::SwDataDefPropsConditional))
+            .and_then(|e| e.create_sub_element(ElementName::SwCalprmAxisSet));
+        match set {
+            Ok(set) => {
+                for v in [0.0f64, -0.0, 1.0, 2.0, -1.0, 0.1, 1e300, f64::INFINITY, f64::NEG_INFINITY, f64::NAN, f64::MIN_POSITIVE] {
+                    let r = set
+                        .create_sub_element(ElementName::SwCalprmAxis)
+                        .and_then(|a| a.create_sub_element(ElementName::SwAxisGrouped).and_then(|g| g.create_sub_element(ElementName::MaxGradient)).and_then(|g| g.set_character_data(v)).map(|_| a));
+                    match r {
+                        Ok(a) => floats.push((format!("SW-CALPRM-AXIS max-gradient={v:?}"), a)),
+                        Err(e) => ctx.machinery_error(format!("comparator universe: float {v:?}: {e}")),
+                    }
+                }
+            }
+            Err(e) => ctx.machinery_error(format!("comparator universe: SW-CALPRM-AXIS-SET: {e}")),
+        }
+    }
     let mut evals = 0u64;
-    for (what, uni) in [("names", &universe), ("containers-with-index", &containers), ("parameter-values", &params), ("references", &refs)] {
+    for (what, uni) in [("names", &universe), ("containers-with-index", &containers), ("parameter-values", &params), ("references", &refs), ("float-content", &floats)] {
         let n = uni.len();
         // the matrix, row by row in parallel (each comparison takes read locks only)
         let rows: Vec<Vec<i8>> = uni
@@ -481,8 +505,8 @@ pub fn comparator_axioms(ctx: &Ctx, tier: Tier) -> u64 {
                 if rows[i][j] != -rows[j][i] {
                     ctx.violation(format!("comparator|{what}|not-antisymmetric"), json!({"kind": "cmp", "a": uni[i].0, "b": uni[j].0, "a_cmp_b": rows[i][j], "b_cmp_a": rows[j][i]}));
                 }
-                if i != j && rows[i][j] == 0 && what == "names" {
-                    ctx.violation(format!("comparator|{what}|distinct-names-compare-equal"), json!({"kind": "cmp", "a": uni[i].0, "b": uni[j].0}));
+                if i != j && rows[i][j] == 0 && (what == "names" || what == "float-content") {
+                    ctx.violation(format!("comparator|{what}|distinct-keys-compare-equal"), json!({"kind": "cmp", "a": uni[i].0, "b": uni[j].0}));
                 }
             }
         }
